@@ -2,6 +2,7 @@ package main
 
 import (
 	"fmt"
+	"go/ast"
 	"go/token"
 	"sort"
 	"strings"
@@ -100,6 +101,7 @@ func checkC02(c *Check) {
 	c.Expl = "Structural clauses of 'every accepted program is compiled completely', decided cell-wise by evaluating the checker's and the generator's operator tables abstractly (engine E2: partial evaluation of the Visit* methods over operator constants and operand type classes, with a typed model of ddptypes' predicates and of the llir builder): every cell the checker admits has a lowering that does not reach c.err/panic (R2.1), leaves the IR class the checker's result type maps to (R2.2) and builds only well-typed IR (R2.3); every operator/node enum is covered by the String(), checker and generator switches (R2.4); every runtime symbol the generator declares is defined by the C runtime, libc/libm or the generator itself (R2.5). Bounds: the type classes listed in coverage.classes; user-defined overloads lower to calls and are out of scope. Not decided: assignment/argument/return contexts, struct and generic lowering, 'LLVM accepts the module' as a whole."
 	checkC02Phis(c, L)
 	checkC02Returns(c, L)
+	checkStructTypesDeclaredBeforeUse(c, c.Rule("R2.9", "a Kombination type is declared in the module before its IR type is read", 1))
 	t := computeCheckerTables(L, c.Tier)
 	cells := computeAdmittedGenCells(L, t)
 	r1 := c.Rule("R2.1", "every checker-admitted operator cell has a lowering (no c.err / panic)", 100)
@@ -359,5 +361,80 @@ func checkC02Returns(c *Check, L *Loaded) {
 				}
 			}
 		}
+	}
+}
+
+// R2.9 (= R15.8): the table of declared Kombination types is never read for a type that may not have been declared in the
+// module being compiled. A single-value read `c.structTypes[t]` yields nil for such a type (and the next use crashes the
+// generator); it is allowed only where, on every path, defineOrDeclareStructType ran before (must-dataflow on go/cfg), or
+// in the comma-ok form. The case that needs it: a generic function whose body uses a Kombination that is private to its
+// module, instantiated from an importing module.
+func checkStructTypesDeclaredBeforeUse(c *Check, r *Rule) {
+	L := c.L
+	cp := L.ByRel["src/compiler"]
+	info := cp.TypesInfo
+	n := 0
+	L.ForEachFunc([]string{"src/compiler"}, func(fi *FuncInfo) {
+		var reads []*ast.IndexExpr
+		commaOK := map[*ast.IndexExpr]bool{}
+		lhs := map[*ast.IndexExpr]bool{}
+		ast.Inspect(fi.Decl.Body, func(nd ast.Node) bool {
+			switch x := nd.(type) {
+			case *ast.AssignStmt:
+				if len(x.Lhs) == 2 && len(x.Rhs) == 1 {
+					if ix, ok := ast.Unparen(x.Rhs[0]).(*ast.IndexExpr); ok {
+						commaOK[ix] = true
+					}
+				}
+				for _, l := range x.Lhs {
+					if ix, ok := ast.Unparen(l).(*ast.IndexExpr); ok {
+						lhs[ix] = true
+					}
+				}
+			case *ast.IndexExpr:
+				if v := fieldOf(info, x.X); v != nil && nameIs(v, "structTypes") && isMapType(info.TypeOf(x.X)) {
+					reads = append(reads, x)
+				}
+			}
+			return true
+		})
+		if len(reads) == 0 {
+			return
+		}
+		g := L.CFG(fi)
+		mf := &mustFlow{G: g, Init: 0, Transfer: func(nd ast.Node, s uint32) uint32 {
+			callsIn(nd, func(call *ast.CallExpr) {
+				if fn := Callee(info, call); fn != nil && (nameIs(fn, "defineOrDeclareStructType") || nameIs(fn, "defineOrDeclareAllDeclTypes")) {
+					s |= 1
+				}
+			})
+			return s
+		}}
+		mf.Run()
+		for _, ix := range reads {
+			if commaOK[ix] || lhs[ix] {
+				continue
+			}
+			n++
+			declared := false
+			for _, b := range g.Blocks {
+				for i, nd := range b.Nodes {
+					found := false
+					ast.Inspect(nd, func(m ast.Node) bool {
+						if m == ast.Node(ix) {
+							found = true
+						}
+						return !found
+					})
+					if found && mf.StateAt(b, i)&1 != 0 {
+						declared = true
+					}
+				}
+			}
+			r.Decide(declared, fmt.Sprintf("%s|%s", L.QName(fi.Obj), normSrc(L, info, ix)), ix.Pos(), "the type was declared on every path to this read", "the table of declared Kombination types is read for a type that this module may never have declared (the read yields nil and the generator crashes): a generic function that uses a Kombination private to its module cannot be instantiated from an importing module")
+		}
+	})
+	if n == 0 {
+		r.Und("compiler.structTypes", token.NoPos, "no single-value read of the table of declared Kombination types found")
 	}
 }
